@@ -49,6 +49,14 @@ MetConfigs ==
              g \in { <<2, 1, 1>>, <<2, 2, 1>>, <<3, 2, 2>> }, nt \in 1..3, nv \in {3, 5},
              st \in { <<1999, 365, 22>>, <<2011, 1, 0>> } } : ~CloudAmbiguous(x) }
   \cup
+  \* land use (time independent; the old style has 11 categories and at most one
+  \* optional record)
+  { x \in { [fmt |-> "landuse", spc |-> <<>>, nx |-> g[1], ny |-> g[2], nz |-> nl, nt |-> 1,
+              year |-> 2011, jjj |-> 1, hour |-> 0, h24 |-> FALSE, hdr3 |-> TRUE, lstag |-> 0, nv |-> 0,
+              newstyle |-> ns, nopt |-> no] :
+             g \in { <<2, 2>>, <<3, 2>> }, nl \in {11, 26}, ns \in BOOLEAN, no \in 0..2 } :
+        x.newstyle \/ (x.nopt <= 1 /\ x.nz = 11) }
+  \cup
   \* lateral boundary: grids of at least 2 x 2 (an edge has a first and a last cell)
   { [fmt |-> "lateral_boundary", name |-> <<"B","O","U","N","D","A","R","Y">>, note |-> <<"v","e","r","i","f">>, itzon |-> 0,
      spc |-> sp, nx |-> g[1], ny |-> g[2], nz |-> g[3], nt |-> nt, year |-> st[1], jjj |-> st[2], hour |-> st[3],
